@@ -186,7 +186,7 @@ def uniquePoints (l1 l2 : List V3) : List V3 :=
   let cp := commonPoints l1 l2
   (l1 ++ l2).filter (fun p => !(cp.any (fun c => decide (near p c))))
 
-/-- repair 3: `np.dot(t0.normal, t1.normal) < 0.5` (unit normals more than 60° apart), without square roots -/
+/-- repair 5ddf0fe: `np.dot(t0.normal, t1.normal) < 0.5` (unit normals more than 60° apart), without square roots -/
 def tooSteep (t0 t1 : Tri) : Prop :=
   V3.dot t0.normalRaw t1.normalRaw < 0 ∨
     4 * (V3.dot t0.normalRaw t1.normalRaw * V3.dot t0.normalRaw t1.normalRaw) < V3.norm2 t0.normalRaw * V3.norm2 t1.normalRaw
@@ -267,13 +267,13 @@ def cornersOf (q : Quads) : Except Err (List V3) := do
   let p7 ← commonPoint q.top q.back q.left
   pure [p0, p1, p2, p3, p4, p5, p6, p7]
 
-/-- repair 1: every original point is taken exactly once -/
+/-- repair e299470: every original point is taken exactly once -/
 def eachOnce (pts out : List V3) : Bool :=
   pts.all (fun q => (out.filter (fun p => decide (near p q))).length == 1)
 
 def det3 (a b c : V3) : Rat := V3.dot (V3.cross a b) c
 
-/-- repair 2: `dot(cross(p1 - p0, p3 - p0), p4 - p0) < 0` → swap left and right -/
+/-- repair 9e4eb19: `dot(cross(p1 - p0, p3 - p0), p4 - p0) < 0` → swap left and right -/
 def swapLR (out : List V3) : List V3 := [1, 0, 3, 2, 5, 4, 7, 6].map (fun i => out.getD i V3.zero)
 
 def fixHand (out : List V3) : List V3 :=
